@@ -9,3 +9,29 @@ chk("C01",
     "Trusted: harness path construction/pixel projection. Lattice inputs make every f32 step exact. Rounding ties and the 16.16 slope truncation of edges taller than 22 px are accepted either way (DESIGN.md C01).",
     "TLA+ spec (Coverage.tla) + TLC-generated polygons replayed on the code + TLC trace validation",
     "DESIGN.md 7 C01")
+_canvas_note = ("Trusted: harness interpreter/projection (harness/src/canvas.rs); Coverage.tla (validated by C01) for lattice shape and clip coverage; "
+                "Pixel.tla transcription of sw-composite arithmetic (self-checked against the real functions); image/gradient source colours are taken from a Src "
+                "probe render (their positioning is C12/C13). Bounds: 5x5 surface, menus of Gen_Canvas, set-up depth <= 2-3 exhaustive, deeper by simulation.")
+chk("C02",
+    "The DrawTarget API is specified as a TLA+ state machine (Canvas.tla: pixels, transform, whole clip stack, layer stack). TLC generates properly nested call histories from menus (Gen_Canvas, exhaustive to small depth and simulated deeper, with 28 blend modes x sources x alphas x AA), the harness executes them on the real library (one shadow target per open layer), and TLC validates every recorded step: every pixel for which the specification's MayChange (inside every pushed clip rect, non-zero coverage in every pushed clip path, possibly non-zero shape coverage, no layer open) is false must be bit-identical.",
+    _canvas_note, "TLA+ API state machine (Canvas.tla) + TLC-generated histories replayed on the code + TLC trace validation (MayChange predicate)", "DESIGN.md 7 C02")
+chk("C03",
+    "Same pipeline as C02; for every pixel that may change, the observed value must be a member of Composite(mode, source, previous, coverage, clip coverage) from Pixel.tla, with the set exactly as wide as the property's wording (SrcOver via over_in/over_in_in, other modes lerp by the coverage product, exact blend at full coverage, unchanged at zero). All 28 blend modes are transcribed into TLA+.",
+    _canvas_note, "TLA+ per-pixel compositing spec (Pixel.tla, Canvas.tla Allowed) + TLC trace validation of TLC-generated histories", "DESIGN.md 7 C03")
+chk("C05",
+    "Canvas.tla keeps the whole clip stack; TLC enumerates push/pop histories over 11 clip rectangles (overlapping, disjoint, inverted, off-surface) and 5 clip paths with transforms, to depth 2-3 exhaustively and depth 5 by simulation, and every drawn pixel of the real library must match MayChange/Allowed under the intersection of all rectangles and the product of all path coverages; stack depths are compared after every call.",
+    _canvas_note, "TLA+ API state machine with full clip stack + TLC-generated push/pop histories + TLC trace validation", "DESIGN.md 7 C05")
+chk("C06",
+    "Layers in Canvas.tla are isolated groups: the harness gives every open layer a shadow target (transparent, same transform and clip) that receives the same calls, so the layer's content is observed rather than guessed; TLC validates that the visible surface never changes while a layer is open (including clear), that pop_layer equals Composite(layer blend, shadow pixel, previous, opacity byte, clip) for every pixel of the clip, recursively for nested layers, and that transform and stack depths are untouched by push/pop; layers under empty/inverted clips must not panic.",
+    _canvas_note, "TLA+ API state machine with layer stack + shadow-target conformance + TLC trace validation", "DESIGN.md 7 C06")
+chk("C10",
+    "TLC generates histories of drawing calls with very different vertical extents, no-op draws, singular transforms and off-surface clips; for every drawing call the harness also replays the call on a fresh DrawTarget holding the same pixels and the re-established transform/clips (layer groups as a whole), and TLC requires bit-identical pixels plus the rasteriser-idle hook after every call. In Canvas.tla the next state is a function of <<pix, ctm, clips, layers>> and the call only.",
+    "Trusted: harness state re-establishment; the cfg(raqote_verif) idle hook. Histories up to 4 draws + 4 set-up calls.",
+    "TLA+ API state machine + TLC-generated histories + fresh-replay equality and idle-hook validation by TLC", "DESIGN.md 7 C10")
+chk("C11",
+    "Two-route scenarios generated by TLC (Gen_Routes xform): fill under T vs fill(Path::transform(T)) for 12 invertible transforms (incl. rotations and a general matrix) x 7 shapes incl. curves must be bit-identical; clip rects, mask and surface copies under T must equal the identity; singular T must draw nothing. Histories with lattice transforms are validated by the C02/C03 predicates with geometry mapped through T in the specification, and get_transform is compared with the specification's after every call.",
+    _canvas_note, "TLA+ spec (Canvas.tla transforms) + TLC-generated two-route scenarios and histories + TLC trace validation", "DESIGN.md 7 C11")
+chk("C14",
+    "TLC enumerates every integer rectangle (x,y in -2..6, w,h in -3..6) on a 4x4 destination of distinct pixels with blend mode/source/alpha variants, and for each the four route pairs of the property (fill_rect vs fill(rect path); with vs without surface-covering clip; clear with vs without clip; draw_image_at vs fill_rect with translated image); the harness runs both routes and TLC requires bit-identical pixels.",
+    "Trusted: harness run_routes. Exhaustive over the stated rectangle grid; variants by hash.",
+    "TLA+ two-route specification (FillRect is Fill(RectPath)) + TLC-enumerated scenarios + TLC equality validation", "DESIGN.md 7 C14")
